@@ -141,7 +141,9 @@ static int runnable(int t)
 	case BLK_MUTEX:
 		return locks[(intptr_t)x->blocked_on].owner == -1;
 	case BLK_WAIT:
-		return x->ready(x->ready_ctx) || (x->deadline >= 0 && x->deadline <= vk_clock);
+		/* a deliverable pending signal interrupts the kernel wait (the handler runs, the wait re-polls once) */
+		return x->ready(x->ready_ctx) || (x->deadline >= 0 && x->deadline <= vk_clock) ||
+		       (!x->in_signal && (x->sigpending & ~x->sigmask) != 0);
 	case BLK_JOIN:
 		return th[x->join_target].finished;
 	}
@@ -616,6 +618,26 @@ static void deliver_signals(void)
 	}
 }
 
+/* the calling thread receives sig right now (used for deliveries in a forked child, see mt_as_child) */
+void mt_deliver_now(int sig)
+{
+	struct mt_thread *x = &th[mt_self()];
+	uint64_t saved = x->sigmask;
+	int nested = x->in_signal;
+
+	if (sig <= 0 || sig >= NSIGV || sig_handler[sig] == NULL) {
+		vk_trace("Sdfl %d", sig);
+		return;
+	}
+	vk_trace("Sd %d", sig);
+	x->in_signal = 1;
+	x->sigmask = ~0ULL;
+	sig_handler[sig](sig);
+	x->sigmask = saved;
+	x->in_signal = nested;
+	vk_trace("Sx %d", sig);
+}
+
 /* ---- virtual processes: fork / wait4 / kill / getpid ---- */
 #define MAXCHILD 32
 #define MAXATFORK 8
@@ -670,6 +692,8 @@ pid_t __wrap_fork(void)
 		if (af_parent[i] != NULL)
 			af_parent[i]();
 	vk_trace("Fk %d", pid);
+	if (mt_fork_hook != NULL)
+		mt_fork_hook(pid);	/* the scenario may let the child change state at once */
 	return pid;
 }
 
@@ -684,7 +708,12 @@ int mt_new_child(void)
 	return child[nchild++].pid;
 }
 
-/* scenario side: the child changes state; SIGCHLD becomes pending for the process */
+/* scenario side: the child changes state; SIGCHLD becomes pending for the process (for thread mt_chld_thr
+   when the scenario chose the receiving thread; -1 = default choice of mt_raise) */
+int mt_chld_thr = -1;
+void (*mt_kill_hook)(int pid, int sig);
+void (*mt_fork_hook)(int pid);
+
 void mt_child_status(int pid, int status)
 {
 	int i;
@@ -692,7 +721,7 @@ void mt_child_status(int pid, int status)
 	for (i = 0; i < nchild; i++)
 		if (child[i].pid == pid && !child[i].reaped && child[i].nq < 16) {
 			child[i].q[child[i].nq++] = status;
-			mt_raise(SIGCHLD, -1);
+			mt_raise(SIGCHLD, (mt_chld_thr >= 0 && mt_chld_thr < nthr && th[mt_chld_thr].used && !th[mt_chld_thr].finished) ? mt_chld_thr : -1);
 			return;
 		}
 }
@@ -768,9 +797,39 @@ int __wrap_kill(pid_t pid, int sig)
 				errno = ESRCH;
 				return -1;
 			}
+			if (mt_kill_hook != NULL)
+				mt_kill_hook((int)pid, sig);
 			return 0;
 		}
 	vk_trace("Ki %d %d ESRCH", (int)pid, sig);
 	errno = ESRCH;
 	return -1;
+}
+
+/* number of children that are not reaped and have a termination queued (zombies) / any change queued */
+int mt_child_pending(int only_dead)
+{
+	int i, k, n = 0;
+
+	for (i = 0; i < nchild; i++) {
+		if (child[i].reaped)
+			continue;
+		for (k = 0; k < child[i].nq; k++)
+			if (!only_dead || WIFEXITED(child[i].q[k]) || WIFSIGNALED(child[i].q[k])) {
+				n++;
+				break;
+			}
+	}
+	return n;
+}
+
+/* has the termination of this child been returned by wait4 (the pid is gone)?  unknown pid: 1 */
+int mt_child_reaped(int pid)
+{
+	int i;
+
+	for (i = 0; i < nchild; i++)
+		if (child[i].pid == pid)
+			return child[i].reaped;
+	return 1;
 }
